@@ -36,44 +36,51 @@ Section NoTick.
   Variable ct : list Locate.label -> Locate.label -> bool.
   Variable sp : Locate.span.
 
-  Lemma b_inner_no_tick b inner : b_inner gl ct sp b = Ret inner -> has_char ch_tick inner = false.
+  Lemma b_inner_no_tick b inner : b_ok b -> b_inner gl ct sp b = Ret inner -> has_char ch_tick inner = false.
   Proof.
-    destruct b as [a|oa ob st|z|oa st]; cbn [b_inner].
-    - destruct (Locate.resolve_bt gl ct sp (a, parse_int_raw a)) as [l|e]; cbn [omap]; [|discriminate].
+    destruct b as [a|oa ob st|g]; cbn [b_inner b_ok].
+    - intros _. destruct (Locate.resolve_bt gl ct sp (a, parse_int_raw a)) as [l|e]; cbn [omap]; [|discriminate].
       intros H; inversion H; subst inner. apply str_loc_no_tick.
-    - destruct (Locate.eval_slice_bounds _ _ _) as [[x y]|e]; cbn [omap fst snd]; [|discriminate].
+    - intros _. destruct (Locate.eval_slice_bounds _ _ _) as [[x y]|e]; cbn [omap fst snd]; [|discriminate].
       intros H; inversion H; subst inner. apply no_tick_join; apply ropt_no_tick.
-    - intros H; inversion H; subst inner. apply Z_to_string_no_tick.
-    - intros H; inversion H; subst inner.
-      change (has_char ch_tick (ropt oa ++ String ch_colon (ropt None ++ String ch_colon (ropt st))) = false).
-      apply no_tick_join; apply ropt_no_tick.
+    - intros [T _] H; inversion H; subst inner. exact T.
   Qed.
 
-  Lemma b_dst_no_tick b t : b_dst gl ct sp b = Ret t -> has_char ch_tick t = false.
+  Lemma b_dst_no_tick b t : b_ok b -> b_dst gl ct sp b = Ret t -> has_char ch_tick t = false.
   Proof.
-    unfold b_dst. destruct (b_inner gl ct sp b) as [inner|e] eqn:E; cbn [omap]; [|discriminate].
+    intros Hb. unfold b_dst. destruct (b_inner gl ct sp b) as [inner|e] eqn:E; cbn [omap]; [|discriminate].
     intros H; inversion H; subst t.
     change (has_char ch_tick ("[" ++ (inner ++ "]")) = false).
-    rewrite (has_char_app ch_tick "[" (inner ++ "]")), (has_char_app ch_tick inner "]"), (b_inner_no_tick b inner E). reflexivity.
+    rewrite (has_char_app ch_tick "[" (inner ++ "]")), (has_char_app ch_tick inner "]"), (b_inner_no_tick b inner Hb E). reflexivity.
+  Qed.
+
+  Lemma ps_out_no_tick p t : pseg_ok p -> ps_out gl ct sp p = Ret t -> has_char ch_tick t = false.
+  Proof.
+    intros (_ & H1 & H2 & Hb). unfold ps_out. destruct (is_label_bracket (ps_b p)) eqn:E.
+    - apply b_dst_no_tick; exact Hb.
+    - intros H; inversion H; subst t. unfold seg_bracket, to_seg. cbn [sg_ws1 sg_g sg_ws2 has_char].
+      rewrite !has_char_app, (re_space_no_tick _ H1), (re_space_no_tick _ H2).
+      pose proof (b_src_tick _ Hb) as T. rewrite E in T. rewrite T. reflexivity.
   Qed.
 
   (* all backticks of the source stand inside brackets => none is left *)
   Theorem program_subst_no_tick prog ts tail :
+    Forall pseg_ok prog ->
     Forall (fun p => has_char ch_tick (ps_pre p) = false) prog -> has_char ch_tick tail = false ->
-    Forall2 (fun p t => b_dst gl ct sp (ps_b p) = Ret t) prog ts ->
+    Forall2 (fun p t => ps_out gl ct sp p = Ret t) prog ts ->
     has_char ch_tick (program_subst prog ts tail) = false.
   Proof.
-    intros Hp Ht HF. unfold program_subst.
+    intros Hok Hp Ht HF. unfold program_subst.
     induction HF as [|p t r ts' Hpt HF IH]; cbn [map expr_subst]; [exact Ht|].
-    inversion Hp as [|? ? Hp1 Hp2]; subst. cbn [to_seg sg_pre].
-    rewrite !has_char_app, Hp1, (b_dst_no_tick _ _ Hpt), (IH Hp2). reflexivity.
+    inversion Hp as [|? ? Hp1 Hp2]; subst. inversion Hok as [|? ? Hk1 Hk2]; subst. cbn [to_seg sg_pre].
+    rewrite !has_char_app, Hp1, (ps_out_no_tick _ _ Hk1 Hpt), (IH Hk2 Hp2). reflexivity.
   Qed.
 
   (* so eval() hands CPython a backtick-free text: the rewritten program *)
   Corollary program_eval_text prog ts tail :
     Forall pseg_ok prog -> has_char ch_open tail = false ->
     Forall (fun p => has_char ch_tick (ps_pre p) = false) prog -> has_char ch_tick tail = false ->
-    Forall2 (fun p t => b_dst gl ct sp (ps_b p) = Ret t) prog ts ->
+    Forall2 (fun p t => ps_out gl ct sp p = Ret t) prog ts ->
     exists text, eval_text (c10_has ct sp) (c10_locate gl sp) (program_text prog tail) = Ret text /\
                  has_char ch_tick text = false /\
                  (has_char ch_tick (program_text prog tail) = true -> text = program_subst prog ts tail) /\
